@@ -81,6 +81,7 @@ fn main() {
             report::init("C11", "witness", seed, shard, &out);
             c10::run("C11", seed, "witness", shard, None)
         }
+        "C17" => c17::run(seed, &tier, shard),
         "C12" => {
             if shard == 0 {
                 witness::run_witnesses("C12");
